@@ -7,12 +7,16 @@
    node ([describe]); [EMutate o] is a set / delete between steps.  All theorems quantify over
    every schedule, every initial canonical trie, every exploration order.  Only the property
    theorems (Fog/TWalk_proofs.v).
-   Database-level walk (db reads, the concrete cache, pruning + MissingTraversalNode retry):
-   modelled in Fog/Walk.v and tied to the code by the correspondence check. *)
+   Database-level walk (db reads, the concrete TrieFrontierCache incl. simulated parents,
+   pruning + the MissingTraversalNode stutter): modelled in Fog/Walk.v (tied to the code by the
+   correspondence check) and PROVED to refine the tree-level system in Fog/DWalk_proofs.v — the
+   C09_D theorems at the end transfer every theorem above to runs of the database-level walk
+   (keccak256, explicit executable no-collision premise over the bodies the history writes). *)
 From Coq Require Import List NArith Bool.
 From PyTrie.Base Require Import Bytes Result Nibbles.
-From PyTrie.Hexary Require Import Raw Tree TreeTraverse.
-From PyTrie.Fog Require Import Fog Fog_proofs TWalk TWalk_proofs.
+From PyTrie.Base Require Import AMap Rlp.
+From PyTrie.Hexary Require Import Raw Tree TreeTraverse D D_read Run Refine_read Refine_write.
+From PyTrie.Fog Require Import Fog Fog_proofs TWalk TWalk_proofs Walk DWalk_proofs.
 Import ListNotations.
 
 (* the invariant behind everything: a stable key is met, or still covered by the fog *)
@@ -70,3 +74,73 @@ Print Assumptions C09_can_finish.
 (* non-vacuity: a concrete schedule with a delete collapsing a branch, an insert splitting a
    leaf, stale-version steps and a simulated node, reaching a complete fog *)
 Print Assumptions C09_example.
+
+(* ---------------- database level ---------------- *)
+(* [w_init prune use ws0]: the trie built by the writes ws0 (pruning or not), a fresh fog, an empty
+   frontier cache, cache used or not; [ops]: any list of walk steps (either query, any key), set /
+   delete between steps, cache resets and iterator reads ([allowed]); [writes_of ops] the writes
+   among them; [mets ops outs] the (key, value) pairs the steps reported. *)
+
+(* every run of the database-level walk is a schedule of the tree-level system: same fog, same
+   pairs met, same number of steps *)
+Theorem C09_D_refines : forall prune use ws0 ops, Forall allowed ops ->
+  cf K (hist_bodies K (ws0 ++ writes_of ops)) ->
+  Forall (fun b => (blen b < 2 ^ 64)%N) (hist_bodies K (ws0 ++ writes_of ops)) ->
+  let t0 := trun (map top_of ws0) in let w0 := w_init prune use ws0 in
+  canonical_top t0 = true /\
+  exists s tw, sched_ok s /\ trun_walk (twalk_init t0) s = Some tw /\
+    wrel (hist_bodies K (ws0 ++ writes_of ops)) (wfinal w0 ops) tw /\
+    sched_muts s = map top_of (writes_of ops) /\
+    tw_versions tw = vers_after [t0] (map top_of (writes_of ops)) /\
+    count_steps s = steps_done ops (wrun w0 ops) /\
+    map met_pair_obs (tw_met tw) = mets ops (wrun w0 ops).
+Proof. exact DWalk_proofs.wrun_refines. Qed.
+Print Assumptions C09_D_refines.
+
+(* hence, for the database-level walk: stable keys are met or still covered; a complete fog means
+   every stable key was met; nothing is met that was never stored; no key twice; on an
+   unchanging trie the pairs met are exactly the contents, each once *)
+Theorem C09_D : forall prune use ws0 ops, Forall allowed ops ->
+  cf K (hist_bodies K (ws0 ++ writes_of ops)) ->
+  Forall (fun b => (blen b < 2 ^ 64)%N) (hist_bodies K (ws0 ++ writes_of ops)) ->
+  let t0 := trun (map top_of ws0) in let w0 := w_init prune use ws0 in
+  let versions := vers_after [t0] (map top_of (writes_of ops)) in
+  exists met : bindings,
+    mets ops (wrun w0 ops) = map met_pair_obs met /\
+    fog_inv (w_fog (wfinal w0 ops)) /\
+    (forall k v, v <> [] -> nibs_ok k = true -> (forall t, In t versions -> tget t k = v) ->
+       In (k, v) met \/ exists p, In p (w_fog (wfinal w0 ops)) /\ is_prefix p k) /\
+    (w_fog (wfinal w0 ops) = [] ->
+       forall k v, v <> [] -> nibs_ok k = true -> (forall t, In t versions -> tget t k = v) -> In (k, v) met) /\
+    (forall k v, In (k, v) met -> v <> [] /\ nibs_ok k = true /\ exists t, In t versions /\ tget t k = v) /\
+    NoDup (map fst met) /\
+    (writes_of ops = [] -> w_fog (wfinal w0 ops) = [] ->
+       (forall k v, In (k, v) met <-> In (k, v) (contents t0)) /\ NoDup met).
+Proof. exact DWalk_proofs.wrun_C09. Qed.
+Print Assumptions C09_D.
+
+(* termination: at most 17^(L+1) successful steps, and from any reached state finitely many
+   steps complete the fog — pruning or not, whatever the cache holds *)
+Theorem C09_D_step_bound : forall L prune use ws0 ops, Forall allowed ops ->
+  cf K (hist_bodies K (ws0 ++ writes_of ops)) ->
+  Forall (fun b => (blen b < 2 ^ 64)%N) (hist_bodies K (ws0 ++ writes_of ops)) ->
+  keys_bounded L (trun (map top_of ws0)) ->
+  Forall (fun wo : Refine_write.wop => (2 * length (fst wo) <= L)%nat) (writes_of ops) ->
+  (N.of_nat (steps_done ops (wrun (w_init prune use ws0) ops)) <= pow17 (S L))%N.
+Proof. exact DWalk_proofs.wrun_step_bound. Qed.
+Print Assumptions C09_D_step_bound.
+
+Theorem C09_D_can_finish : forall prune use ws0 ops, Forall allowed ops ->
+  cf K (hist_bodies K (ws0 ++ writes_of ops)) ->
+  Forall (fun b => (blen b < 2 ^ 64)%N) (hist_bodies K (ws0 ++ writes_of ops)) ->
+  exists n, w_fog (wfinal (w_init prune use ws0) (ops ++ repeat (WStep true []) n)) = [].
+Proof. exact DWalk_proofs.wrun_can_finish. Qed.
+Print Assumptions C09_D_can_finish.
+
+(* non-vacuity with the real keccak256: sets, steps, a delete collapsing a branch, stale-cache reads,
+   a MissingTraversalNode stutter on the pruning trie, a simulated node; plus the machine-checked
+   counterexample showing that the frontier cache can hold a SIMULATED parent *)
+Print Assumptions ex_run_nonpruning.
+Print Assumptions ex_run_pruning.
+Print Assumptions ex_C09.
+Print Assumptions ex_cache_holds_simulated_node.
